@@ -71,7 +71,7 @@ func main() {
 	}
 	r.Rule("finite space enumerated completely: (1) every C struct/union reachable from a map key/value, the load-time constant or defined in tproxy.c/ebpf_sync_defs.h (found from the clang AST) x every Go bpf* data struct of package control (found from go/ast; compiled, stub-shadowed and the PARAM literal) compared field by field (offset,size,element size,padding) + every ebpf tag + every map size assumption; " +
 		"(2) every constant of ebpf_sync_spec.json x ebpf_generated.go x ebpf_sync_defs.h + shared limits + byte-for-byte regeneration; " +
-		"(3) key constructors: 8 address pairs x 16 port pairs x tcp/udp x 4 hooks x 2 parse paths x Go input forms; reply-direction tuple keys (copy_reversed_tuples): 4 address pairs x 16 port pairs x tcp/udp x 4 reply hooks x 2 parse paths, entry creation and refresh of a forward flow; 256 outbounds x 3 domains x 2 families; 21 prefixes x boundary probes x src/dst; 9 addresses x 5 rule bits; 4 listener slots; lpm_array_map keys: 7 programs (mac/dip/sip alone, mixed, AND) x ring cursors {0,1,5,Max/2,Max-1,Max-2,Max-count,Max-count+1} x every LPM-backed rule index + real route() on 4 MACs x 8 address pairs. " +
+		"(3) key constructors: 8 address pairs x 16 port pairs x tcp/udp x 4 hooks x 2 parse paths x Go input forms; reply-direction tuple keys (copy_reversed_tuples): 4 address pairs x 16 port pairs x tcp/udp x 4 reply hooks x 2 parse paths, entry creation and refresh of a forward flow; 256 outbounds x 3 domains x 2 families; 21 prefixes x boundary probes x src/dst; 9 addresses x 5 rule bits; 4 listener slots; lpm_array_map keys: 7 programs (mac/dip/sip alone, mixed, AND) x ring cursors {0,1,5,Max/2,Max-1,Max-2,Max-count,Max-count+1} x every LPM-backed rule index + real route() on 4 MACs x 8 address pairs; process-name field (pid_pname.pname / match_set.pname, limit TASK_COMM_LEN): every name length 1..LIMIT+4 and 2*LIMIT-1..2*LIMIT+1 (thorough 1..4*LIMIT) + 7 real names x 4 (thorough 6) ways the process was started x argv / comm source: bytes the real sock_create program records vs bytes the production builder writes for pname(N) vs the first LIMIT bytes of N, then real route() and the userspace matcher on N and 4 neighbours of N. " +
 		"A case is one compared item (field, constant, key); distinct_nontrivial counts distinct item identities")
 	r.Assume("the C side is tproxy.c compiled natively for x86-64 (LP64, little-endian, natural alignment, 4-byte enums, 1-byte packed enum): identical to the bpfel ABI for every type involved; no verifier/JIT")
 	r.Assume("the real bpf2go output (bpf_bpfel.go) does not exist in this tree; its role is played by control/bpf_stub.go (+ bpf_utils.go in the real-mode build), which is what this tree compiles")
@@ -91,10 +91,11 @@ func main() {
 	c.legDomains(k)
 	c.legListeners(k)
 	c.legRing(k)
+	c.legPname(k)
 	if err := k.Close(); err != nil {
 		c.broken("kdrv exited abnormally: %v\n%s", err, k.Stderr())
 	}
-	for _, leg := range []string{"layout", "consts", "tuples", "reply", "slots", "prefixes", "domains", "listeners", "ring"} {
+	for _, leg := range []string{"layout", "consts", "tuples", "reply", "slots", "prefixes", "domains", "listeners", "ring", "pname"} {
 		r.Set("violations_"+leg, c.perLeg[leg])
 	}
 	r.Sample(map[string]any{"leg": "layout", "example": "struct conn_state <-> bpfConnState", "c_size": lay.Record("struct conn_state").Size})
